@@ -97,8 +97,18 @@ impl<L: Language> RuleRegistration<L> {
     Ok(())
   }
 
+  #[cfg(test)]
   pub(crate) fn insert_rewriter(&self, id: &str, rewriter: RuleCore<L>) {
-    self.rewriters.insert(id, rewriter).expect("should work");
+    self.try_insert_rewriter(id, rewriter).expect("should work");
+  }
+
+  /// a duplicate rewriter id is a configuration error, not a bug
+  pub(crate) fn try_insert_rewriter(
+    &self,
+    id: &str,
+    rewriter: RuleCore<L>,
+  ) -> Result<(), ReferentRuleError> {
+    self.rewriters.insert(id, rewriter)
   }
 
   pub(crate) fn get_local_util_vars(&self) -> HashSet<&str> {
